@@ -487,6 +487,9 @@ func (c *Corpus) scanFromStorage(s sorted.KeyValue) error {
 	if err := c.initDeletes(s); err != nil {
 		return fmt.Errorf("Could not populate the corpus deletes: %w", err)
 	}
+	if err := c.initPartial(s); err != nil {
+		return fmt.Errorf("Could not populate the corpus partial blobs: %w", err)
+	}
 
 	if logCorpusStats {
 		cpu := osutil.CPUUsage() - cpu0
@@ -525,6 +528,33 @@ func (c *Corpus) initDeletes(s sorted.KeyValue) (err error) {
 			})
 		sort.Sort(sort.Reverse(byDeletionDate(targetDeletions)))
 		c.deletes[cl.Target] = targetDeletions
+	}
+	return err
+}
+
+// initPartial restores c.partial: the blobs that are known (by their meta
+// row) but still wait for a dependency, and so will be added a second time,
+// in full, once it has arrived.
+func (c *Corpus) initPartial(s sorted.KeyValue) (err error) {
+	it := queryPrefix(s, keyMissing)
+	defer closeIterator(it, &err)
+	for it.Next() {
+		pair := strings.TrimPrefix(it.Key(), "missing|")
+		have, _, ok := strings.Cut(pair, "|")
+		if !ok {
+			return fmt.Errorf("Bogus missing key %q", it.Key())
+		}
+		br, ok := blob.Parse(have)
+		if !ok {
+			return fmt.Errorf("Bogus missing key %q", it.Key())
+		}
+		if _, ok := c.blobs[br]; !ok {
+			continue
+		}
+		if c.partial == nil {
+			c.partial = make(map[blob.Ref]bool)
+		}
+		c.partial[br] = true
 	}
 	return err
 }
